@@ -47,7 +47,7 @@ var c06Prelude = []string{
 	`func mutm(x, k, v) { x[k] = v; x }`,
 	`func keep(x) { x }`,
 	`func mutsha(a, i, v) { if len(a) > 0 { a[i % len(a)] = v }; len(a) }`, // parameter named like the global a
-	`func mutshm(m, k, v) { m[k] = v; len(m) }`,                           // parameter named like the global m
+	`func mutshm(m, k, v) { m[k] = v; len(m) }`,                            // parameter named like the global m
 	`func slow(v) { t := 0; for i = 40 { t = t + i }; v }`,
 	`func vg9(..) { .. }`, // hands its extra arguments back as an array
 }
